@@ -34,6 +34,37 @@ def arrays_of(o, seen=None, path='o'):
     return out
 
 
+def objects_of(o, seen=None, path='self'):
+    """every MUTABLE object reachable from o (instances, lists, dicts, sets, arrays), by identity -- all links followed, prev_layer included"""
+    seen = seen if seen is not None else {}
+    if o is None or isinstance(o, (int, float, complex, str, bool, bytes, np.number, type)) or callable(o) and not hasattr(o, '__dict__'):
+        return seen
+    if id(o) in seen:
+        return seen
+    if isinstance(o, tuple):
+        for i, x in enumerate(o):
+            objects_of(x, seen, '%s[%d]' % (path, i))
+        return seen
+    if isinstance(o, np.ndarray):
+        seen[id(o)] = (path, 'ndarray')
+        return seen
+    if isinstance(o, (list, set)):
+        seen[id(o)] = (path, type(o).__name__)
+        for i, x in enumerate(o):
+            objects_of(x, seen, '%s[%d]' % (path, i))
+        return seen
+    if isinstance(o, dict):
+        seen[id(o)] = (path, 'dict')
+        for k, v in o.items():
+            objects_of(v, seen, '%s[%r]' % (path, k))
+        return seen
+    if hasattr(o, '__dict__') and not isinstance(o, type) and type(o).__module__.split('.')[0] in ('pyclifford', 'torchclifford'):
+        seen[id(o)] = (path, type(o).__name__)
+        for k, v in vars(o).items():
+            objects_of(v, seen, path + '.' + k)
+    return seen
+
+
 def snap(o, seen=None):
     """deep, value-only snapshot"""
     seen = seen if seen is not None else set()
@@ -123,6 +154,19 @@ def c_copy(ctx, args):
         for pb, b in arrays_of(c):
             if a.size and b.size and np.shares_memory(a, b):
                 return {'kind': 'oracle', 'where': 'np:%s.copy shares memory' % kind, 'observed': [pa, pb], 'expected': 'no shared arrays', 'tags': ['shared', kind]}
+    oo, oc = objects_of(o), objects_of(c)
+    both = sorted(set(oo) & set(oc))
+    if both:
+        return {'kind': 'oracle', 'where': 'np:%s.copy shares a mutable object with the original' % kind, 'observed': [[oo[i], oc[i]] for i in both[:4]], 'expected': 'disjoint object graphs', 'tags': ['shared', kind]}
+    # structural histories: extend the copy (a further gate slides through its layer chain), the original must not notice; and the other way round
+    if kind.startswith('CliffordCircuit') or kind.startswith('CliffordLayer'):
+        for first, second, who in ((c, o, 'copy'), (o, c, 'original')):
+            other0 = snap(second)
+            for _ in range(2):
+                first.take(NP.mk_gate(gen.rgate(rng, ctx.model, n, kinds=('gen', 'named'))))
+            if snap(second) != other0:
+                return {'kind': 'oracle', 'where': 'np:taking gates on the %s of a %s changed the other one' % (who, kind), 'observed': str(snap(second))[:300], 'expected': str(other0)[:300], 'tags': ['shared', kind]}
+        s0 = snap(o)
     scramble(c)
     if snap(o) != s0:
         return {'kind': 'oracle', 'where': 'np:mutating the copy of %s changed the original' % kind, 'observed': str(snap(o))[:300], 'expected': str(s0)[:300], 'tags': ['shared', kind]}
